@@ -36,6 +36,14 @@ func tableOf(y int) []mon {
 	return out
 }
 
+func tableOfYear(ly *calendar.LunarYear) []mon {
+	var out []mon
+	for e := ly.GetMonths().Front(); e != nil; e = e.Next() {
+		out = append(out, monOf(e.Value.(*calendar.LunarMonth)))
+	}
+	return out
+}
+
 func inYear(y int) []mon {
 	var out []mon
 	for e := calendar.NewLunarYear(y).GetMonthsInYear().Front(); e != nil; e = e.Next() {
@@ -65,6 +73,13 @@ var wellFormed = ev.Register(&ev.P[yearCase]{
 			}
 			if m.M == 0 || m.M > 12 || m.M < -12 {
 				return fmt.Errorf("year %d: month number %d", y, m.M)
+			}
+		}
+		if y > 1 && y < 9998 {
+			for _, n := range []int{1, -1} {
+				if nx := ly.Next(n); nx.GetYear() != y+n || fmt.Sprint(tableOfYear(nx)) != fmt.Sprint(tableOf(y+n)) {
+					return fmt.Errorf("year %d: LunarYear.Next(%d) is not the table of year %d", y, n, y+n)
+				}
 			}
 		}
 		in := inYear(y)
